@@ -740,6 +740,8 @@ impl DB {
                 Ok(num_files.to_string())
             }
             DatabaseDescriptor::Stats => {
+                // `summarize_compaction_stats` acquires the database lock itself
+                drop(db_fields_guard);
                 let db_stats = self.summarize_compaction_stats();
                 Ok(db_stats)
             }
